@@ -1022,7 +1022,7 @@ class HierarchicalMachine(Machine):
         self.add_states(new_states)
         for evt in state.events.values():
             # skip auto transitions
-            if state.auto_transitions and evt.name.startswith('to_') and evt.name[3:] in state.states:
+            if state.auto_transitions and evt.name.startswith('to_') and evt.name[3:] in state.get_nested_state_names():
                 continue
             if evt.transitions and evt.name not in self.events:
                 self.events[evt.name] = evt
